@@ -424,7 +424,7 @@ func init() {
 		Cases: func(master uint64, tier string) []Case {
 			n := 160
 			if tier == "thorough" {
-				n = 3000
+				n = 25000
 			}
 			return seqCases(master, n, nil)
 		},
